@@ -67,6 +67,7 @@ func checkC01(c *Ctx) {
 	r.Rule("C01.cde", "closed forms / emission templates of conditionals, operand order and match dispatch", 20)
 	r.Rule("C01.c", "run-time conditionals and short-circuit operators", 5)
 	r.Rule("C01.d", "no reordering primitive outside the frozen set; no operand inside an emitter-introduced closure", 3)
+	r.Rule("C01.n", "every generated compiler function still has the normal form that was reviewed (change detection for the functions no specification covers; a different form is undecided)", 400)
 	r.Rule("C01.m", "a binder's name in the AST is the name written in the source: it never depends on the parsed body", 6)
 	r.Rule("C01.f", "every checked-in generated file type-checks (go/types)", 20)
 	r.Rule("C01.j", "declaration, call and type emission have the documented closed forms / templates (the pins of C03.ab and C15.bcd: records, unions, constructors, funcs, vars, partial application, type printer — necessary for the emitted program to compile and to mean what the source says)", 40)
@@ -96,6 +97,7 @@ func checkC01(c *Ctx) {
 	c.checkPins(f, "C01.j", c03Pins)
 	r.Import("C15.", "C01.j", "", 40, func() { checkC15(c) })
 	r.Import("C06.i", "C01.l", "a continuation token (else, elif, bar, operator) found after skipping line ends is accepted only inside the offside line — otherwise an inner construct takes the else of an outer one and the wrong branch runs (the C06.i rule; 2 known findings)", 2, func() { checkContinuationColumns(c, f) })
+	checkReviewedForms(c, f)
 	checkBinderNames(c, f)
 	checkListOrder(c, "C01.j", f)
 	c.checkPins(f, "C01.j", exprTypePins)
